@@ -205,6 +205,13 @@ def eval_app(v, env):
             val = evaluate(x, env)
             out.extend(val if isinstance(val, Arr) else [val])
         return Arr(sorted({ekey(x): x for x in out}.values(), key=ekey))
+    if fn == "shape" and len(a) == 1:
+        x = E(0)
+        if isinstance(x, Arr) and any(isinstance(i, Arr) for i in x):
+            raise CannotEvaluate("shape of a nested array")
+        # representatives are scalars or 1-d arrays; shapes only occur in (dis)equalities of shapes, which the normal form turns into
+        # differences: a shape is encoded as one number (length for 1-d, -1 for a scalar) so that equal shapes have equal codes
+        return Fraction(len(x)) if isinstance(x, Arr) else Fraction(-1)
     if fn == "len":
         x = E(0)
         if not isinstance(x, Arr):
